@@ -313,6 +313,7 @@ def check(repo, rep, tier):
     c06.r_scan(repo, rep, 'R4.1')
     c06.r_scan_deep(repo, rep, 'R4.1')
     c06.r_feature_loop(repo, rep, 'R4.1')
+    ru.r_instantiation(repo, rep, 'R4.1')
     c06.r_feature_relations(repo, rep, 'R4.1')
     r_unary_labels(repo, rep)
     r_root_list(repo, rep)
